@@ -150,10 +150,27 @@ def h_fft(env, dims, nt, fwd, r2c, inplace, bf):
         env.equal("re_%s" % tag, gr[idx], wr[idx])
         if wi is not None:
             env.equal("im_%s" % tag, gi[idx], wi[idx])
-    # wrongly shaped input is rejected
-    bad_shape = tuple(w.input_shape[:-1]) + (w.input_shape[-1] + 1,)
-    badx = env.zeros(bad_shape) if env.sym else np.zeros(bad_shape)
-    env.attempt("wrong_shape_rejected", lambda: w.call(badx), expect=ValueError)
+    # wrongly shaped inputs are rejected: one extra element, and shapes with the *right number of elements* but different axes
+    # (axes permuted, batch axis dropped / moved to the other end, flattened)
+    ishape = tuple(w.input_shape)
+    cplx_in = not (r2c and fwd)
+    bads = {"last_axis_plus_one": ishape[:-1] + (ishape[-1] + 1,)}
+    if len(set(ishape)) > 1:
+        bads["axes_reversed"] = tuple(reversed(ishape))
+        bads["axes_rotated"] = ishape[1:] + ishape[:1]
+    bads["flattened"] = (int(np.prod(ishape)),)
+    core = ishape[1:] if bf else ishape[:-1]
+    if nt == 1:
+        bads["batch_axis_dropped_axes_reversed"] = tuple(reversed(core)) if len(set(core)) > 1 else core + (1, 1)
+    for nm, shp in sorted(bads.items()):
+        if tuple(shp) == ishape:
+            continue
+        if env.sym:
+            from ..sym import cplx_sym
+            badx = cplx_sym(tuple(shp)) if cplx_in else env.zeros(tuple(shp))
+        else:
+            badx = np.zeros(tuple(shp), dtype=np.complex128 if cplx_in else np.float64)
+        env.attempt("wrong_shape_rejected/%s" % nm, lambda: w.call(badx), expect=ValueError)
 
 
 def h_roundtrip(env, dims, nt, inplace, bf):
